@@ -165,6 +165,16 @@ func matchSeq(w, r []*seqItem, bind binding, rst *State) (bool, string) {
 			}
 			if a.arg.K == KConst && b.id != 0 {
 				bind[b.id] = a.arg.C
+				// byte mode: the same bytes are -1 through a signed API and 0xffffffff through an
+				// unsigned one; bind the value as the *reader's* type sees those bytes, and compare
+				// equalities modulo 2^width
+				if w := wireWidth(a.name); w > 0 && a.arg.C.Kind() == constant.Int {
+					bind[-b.id] = constant.MakeInt64(int64(w))
+					if b.sym != nil && b.sym.T != nil && isIntType(b.sym.T) {
+						_, signed, _ := intBits(b.sym.T)
+						bind[b.id] = wrapToWidth(a.arg.C, w, signed)
+					}
+				}
 			}
 		case "rec", "dyn":
 			if a.name != b.name {
@@ -210,19 +220,32 @@ func matchSeq(w, r []*seqItem, bind binding, rst *State) (bool, string) {
 
 // readerAccepts: the constants bound to the reader's symbols satisfy the reader path's conditions.
 func readerAccepts(rst *State, bind binding) (bool, string) {
+	same := func(id int, x, y constant.Value) bool {
+		if constant.Compare(x, token.EQL, y) {
+			return true
+		}
+		if w, ok := bind[-id]; ok && x.Kind() == constant.Int && y.Kind() == constant.Int {
+			bits, _ := constant.Int64Val(w)
+			return constant.Compare(wrapToWidth(x, int(bits), false), token.EQL, wrapToWidth(y, int(bits), false))
+		}
+		return false
+	}
 	for id, c := range bind {
-		if eq, ok := rst.symEq[id]; ok && !constant.Compare(eq, token.EQL, c) {
+		if id < 0 {
+			continue
+		}
+		if eq, ok := rst.symEq[id]; ok && !same(id, eq, c) {
 			return false, fmt.Sprintf("reader path requires s%d == %s, writer wrote %s", id, constLabel(eq), constLabel(c))
 		}
 		for _, ne := range rst.symNe[id] {
-			if constant.Compare(ne, token.EQL, c) {
+			if same(id, ne, c) {
 				return false, fmt.Sprintf("reader path excludes %s", constLabel(c))
 			}
 		}
 		if set, ok := rst.symSet[id]; ok {
 			in := false
 			for _, x := range set {
-				if constant.Compare(x, token.EQL, c) {
+				if same(id, x, c) {
 					in = true
 				}
 			}
@@ -1041,4 +1064,20 @@ func wrapToWidth(c constant.Value, bits int, signed bool) constant.Value {
 		v -= int64(1) << uint(bits)
 	}
 	return constant.MakeInt64(v)
+}
+
+// wireWidth: bit width of a fixed-width wire integer op (byte mode names), 0 otherwise.
+func wireWidth(name string) int {
+	name = strings.TrimSuffix(name, ":n")
+	switch name {
+	case "fixed1", "be8", "le8":
+		return 8
+	case "fixed2", "be16", "le16":
+		return 16
+	case "fixed4", "be32", "le32":
+		return 32
+	case "fixed8", "be64", "le64":
+		return 64
+	}
+	return 0
 }
